@@ -5,4 +5,5 @@ INVARIANT ReplaceRule
 INVARIANT MIOCap
 INVARIANT MIOCoveredOne
 INVARIANT CoveredConsistent
+INVARIANT ArchiveOwns
 INVARIANT Follows
